@@ -153,8 +153,11 @@ def _mk_nan(n, mask, tiers):
         rows = _rows(h, n)
         # consecutive valid rows within a quarter turn of each other in the same hemisphere: no sign jump to remove here
         valid = [i for i in range(n) if not mask[i]]
+        # (neighbours separated by a NaN run may also be in opposite hemispheres: remove_jumps does not see across the run and
+        # slerp then interpolates towards the antipode; the rows themselves must stay as they are)
         for a, b in zip(valid[:-1], valid[1:]):
-            h.assume(h.ge(_dot(rows[a], rows[b]), 0.5))
+            d = _dot(rows[a], rows[b])
+            h.assume(h.ge(d, 0.5) | (h.le(d, -0.5) if b - a > 1 else h.false()))
         A = np.array([r if not mask[i] else np.array([np.nan] * 4) for i, r in enumerate(rows)], dtype=object if h.sym else float)
         Q = QuaternionArray(np.array([rows[valid[0]]] * n))    # constructor rejects NaN rows: fill the array afterwards
         Q.array[:] = A
